@@ -175,6 +175,50 @@ func TestVerifReplayL2(t *testing.T) {
 		t.Fatal(err)
 	}
 	s := NewScheduler(&nL2Runner{l: l})
+	// The stage-change callback may take time (prunner's takes the runner-wide mutex). Where the trace
+	// has a task failing on its own, then an external cancel, then a task ending canceled, the callback
+	// for the failed stage's error notification is held until the canceled task has reported.
+	hold := map[string]chan struct{}{}
+	lastCanceledEnd := -1
+	externalCancel := false
+	for i, ev := range rf.Events {
+		if strings.HasPrefix(ev, "Scheduler.Cancel called") {
+			externalCancel = true
+		}
+		if strings.HasPrefix(ev, "Run ") && strings.HasSuffix(ev, "ends canceled") {
+			lastCanceledEnd = i
+		}
+	}
+	for i, ev := range rf.Events {
+		if strings.HasPrefix(ev, "Run ") && strings.HasSuffix(ev, "ends with failure") && externalCancel && i < lastCanceledEnd {
+			hold[strings.Fields(ev)[1]] = make(chan struct{})
+		}
+	}
+	releaseHeld := func() {
+		for k, ch := range hold {
+			close(ch)
+			delete(hold, k)
+		}
+	}
+	var holdMu sync.Mutex
+	s.OnStageChange(func(stage *scheduler.Stage) {
+		if stage.ReadStatus() != scheduler.StatusError {
+			return
+		}
+		l.mu.Lock()
+		st := l.stages[stage.Name]
+		own := st != nil && st.failed
+		l.mu.Unlock()
+		holdMu.Lock()
+		ch := hold[stage.Name]
+		holdMu.Unlock()
+		if own && ch != nil {
+			select {
+			case <-ch:
+			case <-time.After(2 * time.Second):
+			}
+		}
+	})
 	var res error
 	done := make(chan struct{})
 	go func() {
@@ -185,8 +229,14 @@ func TestVerifReplayL2(t *testing.T) {
 		close(done)
 	}()
 	failFast := false
-	for _, ev := range rf.Events {
+	for evIdx, ev := range rf.Events {
 		f := strings.Fields(ev)
+		if evIdx == lastCanceledEnd+1 && lastCanceledEnd >= 0 {
+			time.Sleep(20 * time.Millisecond) // the canceled stage has stored its error
+			holdMu.Lock()
+			releaseHeld()
+			holdMu.Unlock()
+		}
 		switch {
 		case strings.HasPrefix(ev, "Run ") && strings.HasSuffix(ev, "begins"):
 			st := l.stages[f[1]]
@@ -256,6 +306,13 @@ func TestVerifReplayL2(t *testing.T) {
 	}
 	if anyTaskError && res == nil {
 		l.violate("C08.failure-makes-the-job-errored", "")
+	}
+	if externalCancel {
+		for _, n := range l.order {
+			if l.stages[n].canceled && !(res != nil && errors.Is(res, context.Canceled)) {
+				l.violate("C04.cancel-that-stopped-a-task-is-reported-as-canceled", fmt.Sprintf("%s was stopped by the cancel, Schedule returned %v", n, res))
+			}
+		}
 	}
 	for _, node := range g.Nodes() {
 		if node.ReadStatus() == scheduler.StatusRunning {
